@@ -38,7 +38,7 @@ func profiles() map[string]world.Profile {
 	capacity := map[string]int{"AddFact": 30, "AddRule": 12, "RemFact": 10, "RemRule": 5, "EnableRule": 6,
 		"StateSize": 10, "GetFact": 5, "Clear": 2}
 	parents := map[string]int{"AddFact": 18, "RemFact": 5, "AddRule": 14, "RemRule": 5, "SetParents": 10, "GetParents": 6,
-		"SearchFacts": 14, "ProcessEvent": 14, "ListRules": 5, "SearchRules": 5, "EnableRule": 5, "GetFact": 4, "Clear": 4}
+		"SearchFacts": 14, "ProcessEvent": 14, "ListRules": 5, "SearchRules": 5, "EnableRule": 5, "GetFact": 4, "Clear": 4, "SetParentsFact": 5}
 	lifecycle := map[string]int{"AddRule": 22, "RemRule": 8, "EnableRule": 14, "ProcessEvent": 30, "Reload": 6,
 		"SetKey": 4, "AddFact": 4, "RemFact": 3, "SetParents": 8, "GetRule": 3, "ListRules": 3}
 	dispatch := map[string]int{"AddFact": 22, "RemFact": 6, "AddRule": 18, "RemRule": 5, "ProcessEvent": 40, "EnableRule": 4, "SetParents": 8}
@@ -62,7 +62,7 @@ func profiles() map[string]world.Profile {
 		"expiry":    {Name: "expiry", Len: 30, Locs: []string{"A"}, Ids: ids, Rules: true, Expiry: true, Cascade: true, MaxFacts: 1000, Weights: expiry},
 		"guards":    {Name: "guards", Len: 50, Locs: []string{"A", "B"}, Ids: ids, Rules: true, Keys: true, Parents: true, SideEffects: true, MaxFacts: 1000, Weights: guards},
 		"guardacts": {Name: "guardacts", Len: 45, Locs: []string{"A"}, Ids: []string{"r1", "r2", "f1"}, Rules: true, Keys: true, SideEffects: true, MaxFacts: 1000, Weights: guardacts},
-		"cascadeq": {Name: "cascadeq", Len: 40, Locs: []string{"A"}, Ids: []string{"f1", "f2", "?q", "?x"}, MaxFacts: 1000, Cascade: true,
+		"cascadeq": {Name: "cascadeq", Len: 40, Locs: []string{"A"}, Ids: []string{"f1", "f2", "?q", "?x", strings.Repeat("L", 1100)}, MaxFacts: 1000, Cascade: true,
 			Weights: map[string]int{"AddFact": 30, "RemFact": 16, "GetFact": 10}}, // ids that look like pattern variables
 		"fan": {Name: "fan", Len: 40, Locs: []string{"A"}, Ids: []string{"f1", "f2", "f3", "f4", "f5", "f6"}, MaxFacts: 1000, Cascade: true, Fan: true,
 			Weights: map[string]int{"AddFact": 40, "RemFact": 12, "GetFact": 6, "SearchFacts": 4}},
